@@ -111,6 +111,12 @@ def chunk_part(ctx, tmp):
             if got != hashlib.new(alg, content).hexdigest():
                 ctx.fail({"content_len": len(content), "alg": alg}, "compute_checksum of a file whose content changed between calls returns %s "
                          "(stale), standard %s digest of the current %d bytes differs" % (got, alg, len(content)), "digest")
+        if content == b"first content":
+            keep = samples.treeinfo(0)
+        keep.checksums.add("changing", "sha256", root_dir=tmp)        # the SAME object refreshes the SAME path and type
+        if tuple(keep.checksums.checksums.get("changing", ())) != ("sha256", hashlib.sha256(content).hexdigest()):
+            ctx.fail({"content_len": len(content)}, "Checksums.add for a path already recorded does not record the digest of the file's "
+                     "current content: %r" % (keep.checksums.checksums,), "digest")
         t = samples.treeinfo(0)
         t.checksums.add("changing", "sha256", root_dir=tmp)
         t.checksums.add("./changing", "md5", root_dir=tmp)       # same normalised path added again with another type: last wins
@@ -142,7 +148,7 @@ def eval_path(case):
     s = ("/" if case["abs"] else "") + rel + "/f"
     norm = [c for c in case["norm"] if c != "."] + ["f"]
     fails = []
-    inside = ".." not in norm
+    inside = ".." not in norm and "n" not in norm
     try:
         if inside:
             t.checksums.add(s, "sha256", root_dir=root)
@@ -174,7 +180,7 @@ def eval_path(case):
 
 # ------------------------------------------------------------------ (c) [checksums] section
 
-LEN = {"bare32": 32, "bare40": 40, "bare64": 64, "bare48": 48, "bare0": 0}
+LEN = {"bare32": 32, "bare40": 40, "bare64": 64, "bare48": 48, "bare0": 0, "bare31": 31, "bare33": 33, "bare41": 41, "bare65": 65}
 
 
 def eval_section(case):
